@@ -6,7 +6,7 @@
 From Coq Require Import ZArith List Bool.
 From RP Require Import Sched.Model Sched.NodeMap Sched.Inv Sched.SchedProofs Sched.RunProofs.
 From Coq Require String.
-From RP Require AppSlots.Model AppSlots.Oracle AppSlots.NodeProofs AppSlots.Hang AppSlots.InvProofs AppSlots.Proofs.
+From RP Require AppSlots.Model AppSlots.Oracle AppSlots.NodeProofs AppSlots.Hang AppSlots.InvProofs AppSlots.Proofs AppSlots.Lists AppSlots.AllocProofs.
 Import ListNotations.
 Open Scope Z_scope.
 
@@ -79,7 +79,7 @@ Proof. vm_compute. auto. Qed.
 
 Module AppSide.
 Import Coq.Strings.String.
-Import RP.AppSlots.Model RP.AppSlots.Oracle RP.AppSlots.NodeProofs RP.AppSlots.Hang RP.AppSlots.InvProofs RP.AppSlots.Proofs.
+Import RP.AppSlots.Model RP.AppSlots.Oracle RP.AppSlots.NodeProofs RP.AppSlots.Hang RP.AppSlots.InvProofs RP.AppSlots.Proofs RP.AppSlots.Lists RP.AppSlots.AllocProofs.
 Open Scope string_scope.
 Open Scope Z_scope.
 
@@ -138,6 +138,35 @@ Theorem C01_app_find_slots_terminates :
     0 <= r_nc r -> 0 <= r_ng r -> 0 < r_co r -> find_slots nl r n = (nl', res) -> res <> RErr EHang.
 Proof. exact find_slots_never_hangs. Qed.
 Print Assumptions C01_app_find_slots_terminates.
+
+(* Node.allocate_slot(slot, _check=True) with a slot MADE BY THE APPLICATION: for any node within its bounds
+   and any slot with non-negative indices and occupations -- also one that names a core or GPU more than once --
+   the call either raises and leaves the node exactly as it was, or adds exactly the slot and every core / GPU
+   occupation stays within FREE .. BUSY, lfs / mem stay >= 0 (repository fix: the check counts what the slot
+   itself already asked of a core / GPU; before, core 0 named twice with 40/64 ended at 80/64) *)
+Theorem C01_app_allocate_checked_sound :
+  forall (nd : node) (s : slot) (nd' : node),
+    node_bounded nd -> slot_wf s -> allocate_slot nd s = (nd', None) ->
+    node_bounded nd' /\
+    nd_index nd' = nd_index nd /\ nd_name nd' = nd_name nd /\
+    shifted (fun j => sum_at j (s_cores s)) (nd_cores nd) (nd_cores nd') /\
+    shifted (fun j => sum_at j (s_gpus s)) (nd_gpus nd) (nd_gpus nd') /\
+    nd_lfs nd' = match nd_lfs nd with Some l => Some (l - s_lfs s) | None => None end /\
+    nd_mem nd' = match nd_mem nd with Some m => Some (m - s_mem s) | None => None end.
+Proof. exact allocate_checked_sound. Qed.
+Print Assumptions C01_app_allocate_checked_sound.
+
+Theorem C01_app_allocate_checked_refusal_leaves_unchanged :
+  forall (nd : node) (s : slot) (nd' : node) (e : err),
+    node_bounded nd -> slot_wf s -> allocate_slot nd s = (nd', Some e) -> nd' = nd.
+Proof. exact allocate_checked_refusal_unchanged. Qed.
+Print Assumptions C01_app_allocate_checked_refusal_leaves_unchanged.
+
+(* the input that showed the defect is refused now, and meets the hypotheses of the two theorems *)
+Theorem C01_app_allocate_checked_duplicate_refused :
+  node_bounded dup_node /\ slot_wf dup_slot /\ allocate_slot dup_node dup_slot = (dup_node, Some EAssert).
+Proof. exact allocate_checked_duplicate_refused. Qed.
+Print Assumptions C01_app_allocate_checked_duplicate_refused.
 
 Example C01_app_nonvacuous :
   let ns0 := [mkNode 0 "localhost" [Some 0; Some 0] [Some 0] (Some 100) (Some 0);
